@@ -125,7 +125,9 @@ func init() {
 			saves, special := 0, 0
 			for _, op := range pl.Ops {
 				var before *seam.MemStore
-				if op.Kind == "save" || op.Kind == "load" || op.Kind == "lfo" || op.Kind == "delto" {
+				// (a rejected re-commit and a rejected deletion must leave the store unchanged; for a
+				// rejected load the property only asks that the tree stays usable)
+				if op.Kind == "save" || op.Kind == "delto" {
 					before, _ = seam.Dump(e.W.Inner)
 				}
 				baseOld := e.M.Base != e.M.Latest
